@@ -80,19 +80,19 @@ PROPS = {
              "2 benign (untouched; 'published' missing with a genesis state) and 34 single faults (signature bit / other key / other claim; auth claim of another issuer; attacker key with the victim's state; inclusion proof for another "
              "claim / non-existence / existence cleared / sibling changed / missing; each root and the state replaced inconsistently and consistently; garbage roots+state 'published'; state or claims root missing / bad hex; another DID; "
              "malformed DID; resolver unpublished / missing / error / no state info for later states; status nonce mismatch / missing / without type / unregistered type / resolver error / auth claim revoked / existence flipped / "
-             "inconsistent or missing tree state); non-trivial = every case; distinct = distinct (op,input) hashes",
+             "inconsistent or missing tree state); status-registry scenes (own registry lacking a type the default one has), documents the issuer never signed under lists of same-type proofs, whole DID documents with the state entry among other verification methods; non-trivial = every case; distinct = distinct (op,input) hashes",
              shards=(8, 16), n=(3, 60),
              trusted=["BabyJubJub signature verification, core.CheckGenesisStateID, w3c.ParseDID, core.IDFromDID: oracle bits computed by the harness with the third-party libraries directly",
                       "HashCR (idealised hash) for 'accepted => the auth claim is in the tree / not revoked'"]),
     "C08": P("cases = synthetic issuers with claims trees of 0-60 (thorough: 0-2000) other claims, a third of them sharing low bits with the credential's index hash (deep siblings, aux nodes), the credential's claim inserted and "
              "proven from the tree, x 24 bundles: 2 benign (untouched; zero roots omitted) and 22 single faults (existence cleared; honest non-existence proof of a never-issued claim; sibling changed / dropped; aux node added; "
              "proof of another claim; claim replaced; proof missing; claims root replaced / missing; state unrelated to the roots but 'published'; attacker's own tree with the victim's state; revocation / roots root replaced; "
-             "non-zero root dropped; state missing; other DID; malformed DID; resolver unpublished / missing / error / no state info); non-trivial = every case; distinct = distinct (op,input) hashes",
+             "non-zero root dropped; state missing; other DID; malformed DID; resolver unpublished / missing / error / no state info); whole DID documents (state entry among 0-4 other verification methods, struct or JSON; the model picks the entry), credentials changed after issuance under the genuine inclusion proof; non-trivial = every case; distinct = distinct (op,input) hashes",
              shards=(8, 16), n=(4, 60),
              trusted=["core.CheckGenesisStateID / DID helpers (oracle bits)", "HashCR for 'accepted => the claim is a leaf of the tree with that root'"]),
     "C09": P("cases = revocation trees (empty, 3 random 64-bit nonces, 40 small nonces, 12 nonces sharing low bits with the queried one) x queries (members, neighbours differing in one low / one middle bit, the base nonce, random, 0) x "
              "14 kinds of resolver answer (honest + 13 single faults: state / each root replaced or dropped, a consistent answer for another tree, existence flipped, sibling changed, aux changed / equal to the nonce, proof for another nonce), "
-             "unregistered status type; the built-in HTTP resolver through a scripted transport: status codes 199-600, body lengths 16382..16385 and beyond, valid / truncated / garbled JSON, transport error; non-trivial = every case; "
+             "unregistered status type; the built-in HTTP resolver through a scripted transport: status codes 199-600, body lengths 16382..16385 and beyond, valid / truncated / garbled JSON, transport error; registry histories over the verifier's own and the process-wide registry with look-alike type names (op registry.run); statuses travelling as JSON through the built-in HTTP resolver with roots or state present but unusable; non-trivial = every case; "
              "distinct = distinct (op,input) hashes",
              shards=(8, 16), n=(25, 400),
              trusted=["go-merkletree-sql proof (de)serialisation", "HashCR for 'any accepted answer tells the truth'"]),
@@ -123,14 +123,14 @@ PROPS = {
     "C14": P("cases = generated credentials of the supported shape (optional id / expiration / refresh service / display method, dates written with offsets and milliseconds, merklized and serialized schemas, any subject object) with 0-4 "
              "attached proofs (BJJ, both sparse-Merkle-tree kinds, unknown types with nested content; single proof as object or array): struct-view root vs root of the original JSON without proof vs root without any proof; "
              "encode/decode round trip compared field by field, by concrete proof kinds and by VerifyProof outcome for both proof types; DID documents with 0-3 authentication entries as references or embedded methods, "
-             "state info and a global-state proof: decode -> encode -> decode stable and equal to the input as generic JSON; non-trivial = every case; distinct = distinct (op,input) hashes",
+             "state info and a global-state proof: decode -> encode -> decode stable and equal to the input as generic JSON; claim spellings (op hex.claim: valid, recased, mis-sized, non-digit, out-of-field; alone and inside a credential's proof list), authentication entries of every JSON kind (op did.auth); non-trivial = every case; distinct = distinct (op,input) hashes",
              shards=(8, 16), n=(8, 150),
              trusted=["encoding/json struct (de)serialisation and time.Time's JSON form (modelled at member level: Gsp.Json.view/unview; parse/render of times are parameters with the round-trip assumption parse(render t) = t)",
                       "json-gold for the roots (see C01-C03)"]),
     "C18": P("cases = generated schemas (draft-07, 2020-12 and no $schema; depth <= 3; type incl. type arrays, properties / required / additionalProperties (false or schema) / min-maxProperties, items / prefixItems / additionalItems / min-maxItems, "
              "enum, const, minimum / maximum / exclusive bounds with integers, decimals and exponents, min-maxLength, 13 patterns of the portable regex subset, allOf / anyOf / oneOf / not, boolean schemas, $ref to local definitions with and "
              "without sibling keywords, a top-level $metadata block) x 8 instances (one conforming by construction where possible, 7 random objects); the verdict valid / invalid / error of Validator.ValidateData and of the Processor "
-             "facade vs the Lean validator; verdicts with and without $metadata; 26 hand-written error cases (invalid schemas, non-object data, malformed JSON, unknown draft); non-trivial = every case; distinct = distinct (schema, data) hashes",
+             "facade vs the Lean validator; verdicts with and without $metadata; 26 hand-written error cases (invalid schemas, non-object data, malformed JSON, unknown draft); numbers in every RFC 8259 spelling incl. multipleOf, member names that spell JSON pointers of other members; non-trivial = every case; distinct = distinct (schema, data) hashes",
              shards=(8, 16), n=(40, 1500),
              trusted=["santhosh-tekuri/jsonschema v5 is the implementation under comparison (third party); schema well-formedness (meta-schema validation) is its own and only exercised by the hand-written error cases",
                       "regular expressions: only the portable subset (literals, ., classes, \\d \\w \\s, * + ?, ^ $) is modelled and generated"]),
@@ -138,7 +138,7 @@ PROPS = {
              "arrays) with a conforming document; for every leaf of the document its dotted path (numeric segments for arrays), plus unknown terms, paths continuing below a leaf and the empty path: Merklizer.ResolveDocPath, "
              "Options.FieldPathFromContext(type, path), TypeFromContext, Entry under the resolved path - vs the model's three resolvers and the expansion specification; TypeIDFromContext vs the stored rdf:type; hand-written "
              "shapes for the known divergences (type-scoped term redefined in a nested node, out-of-range index, heterogeneous array, paths ending in aliases of @type / @id, a scoped context that fails to load); "
-             "non-trivial = paths with more than one segment; distinct = distinct (schema, document, path) hashes",
+             "path values assembled in pieces with Append / Prepend and observed in between (op path.history, six hashers), positions other than 0 where the document has no array; non-trivial = paths with more than one segment; distinct = distinct (schema, document, path) hashes",
              shards=(8, 16), n=(25, 500),
              trusted=["json-gold context processing (ld.Context.Parse, term definitions) is what the Go resolvers run on; the model works on abstract contexts (flat term tables) produced by the same generator that renders the JSON-LD context",
                       "the expansion specification in Gsp.Ctx.storedKey is validated against json-gold through the stored keys (Entry exists under the resolved path)"]),
